@@ -19,6 +19,8 @@ mod zobrist_history;
 mod metrics;
 mod search;
 mod table;
+#[cfg(inkayaku_verif)]
+pub mod verif;
 
 pub struct Engine<T: UciTx + Send + Sync + 'static> {
     uci_tx: Arc<T>,
